@@ -710,12 +710,12 @@ def c16(ctx):
         raise ctx.t.ToolError('big program generation failed: ' + rp.stderr[-400:])
     # DEEP programs (rule lists and AND chains of 48..240 members whose first action alone decides the output mode)
     spine = '%s/c16spine.ndjson' % ctx.work
-    wd = ctx.t.record(['record-compile', '--profile', 'spine16', '--no-warmup'] + (['--few'] if ctx.quick else []), spine)
+    wd = ctx.t.record(['record-compile', '--profile', 'spine16', '--no-warmup'] + (['--few'] if ctx.quick else ['--mid']), spine)
     for f in wd:
         f['stage'] = 'c16spine'
         acc.failures.append(f)
     lf = '%s/c16longfmt.ndjson' % ctx.work
-    wd = ctx.t.record(['record-compile', '--profile', 'longfmt', '--no-warmup'] + (['--few'] if ctx.quick else []), lf)
+    wd = ctx.t.record(['record-compile', '--profile', 'longfmt', '--no-warmup'] + (['--few'] if ctx.quick else ['--mid']), lf)
     for f in wd:
         f['stage'] = 'c16longfmt'
         acc.failures.append(f)
